@@ -812,10 +812,80 @@ def c09_independence(b, Nmax=5):
                 b.fail('layer_independent_from', 'layer %r independent_from gate on %s wrong' % (lay, q2), {'q1': list(q1), 'q2': list(q2)})
 
 
-def c09_circuits(run, Nmax=3, programs=60, maxlen=6):
+def schedule_of(circ):
+    """[(layer index, gate object)] in layer order"""
+    out = []
+    for li, layer in enumerate(circ.layers_forward()):
+        for g in getattr(layer, 'gates', []):
+            out.append((li, g))
+    return out
+
+
+def c09_packing(b, rng, N, maxlen, sample=None):
+    """layer packing, exhaustively over SUPPORT programs: every sequence of <= maxlen gates on non-empty ascending qubit
+    tuples of an N-qubit register is taken by a CliffordCircuit and a Circuit; the resulting layer structure is scanned for a
+    schedule defect (gate lost / duplicated, two overlapping gates in one layer, two overlapping gates executed in the wrong
+    order).  A structural defect is only a candidate: it is reported when gate contents (random Clifford maps on those
+    supports) make circuit.forward differ from gate-by-gate application."""
+    supports = [q for n in range(1, N + 1) for q in itertools.combinations(range(N), n)]
+    progs = itertools.chain.from_iterable(itertools.product(supports, repeat=L) for L in range(2, maxlen + 1))
+    if sample is not None:
+        progs = [tuple(supports[int(k)] for k in rng.integers(0, len(supports), int(rng.integers(2, maxlen + 1)))) for _ in range(sample)]
+    for prog in progs:
+        for cls in ('CliffordCircuit', 'Circuit'):
+            b.case()
+            circ = pcirc.CliffordCircuit(N) if cls == 'CliffordCircuit' else pcirc.Circuit(N)
+            gates = [pcirc.CliffordGate(*q) for q in prog]
+            try:
+                for g in gates:
+                    circ.take(g)
+                sched = schedule_of(circ)
+            except Exception as e:
+                b.fail('packing.raises', repr(e)[:200], {'supports': [list(q) for q in prog], 'N': N, 'cls': cls})
+                continue
+            pos = {id(g): li for li, g in sched}
+            order = {id(g): k for k, (li, g) in enumerate(sched)}
+            bad = None
+            if sorted(pos) != sorted(id(g) for g in gates) or len(sched) != len(gates):
+                bad = 'gate lost or duplicated'
+            else:
+                for i in range(len(gates)):
+                    for j in range(i + 1, len(gates)):
+                        if set(prog[i]) & set(prog[j]) and not pos[id(gates[i])] < pos[id(gates[j])]:
+                            bad = 'overlapping gates #%d %s and #%d %s are not executed in the order added' % (i, prog[i], j, prog[j])
+            if bad is None:
+                continue
+            # candidate: confirm on the action with random gate contents
+            for attempt in range(6):
+                circ2 = pcirc.CliffordCircuit(N) if cls == 'CliffordCircuit' else pcirc.Circuit(N)
+                conts = []
+                for q in prog:
+                    gm, pm = all_maps(len(q), rng, 1)[int(rng.integers(0, 24)) if len(q) == 1 else 0]
+                    conts.append((gm, pm))
+                    g = pcirc.CliffordGate(*q)
+                    g.set_forward_map(CM(gm.copy(), pm.copy()))
+                    circ2.take(g)
+                S = O.all_strings(N) if N <= 3 else [gens.bits(rng, 2 * N) for _ in range(40)]
+                l1 = PL(np.array(S), np.zeros(len(S), dtype=np.int64))
+                l2 = PL(np.array(S), np.zeros(len(S), dtype=np.int64))
+                circ2.forward(l1)
+                for q, (gm, pm) in zip(prog, conts):
+                    g = pcirc.CliffordGate(*q)
+                    g.set_forward_map(CM(gm.copy(), pm.copy()))
+                    g.forward(l2)
+                if not same_list(l1, l2):
+                    b.fail('packing_order', '%s.take packs the gates so that %s; forward differs from gate-by-gate application' % (cls, bad),
+                           {'supports': [list(q) for q in prog], 'N': N, 'cls': cls, 'maps': [[lst(gm), lst(pm)] for gm, pm in conts]})
+                    break
+
+
+def c09_circuits(run, Nmax=3, programs=60, maxlen=6, pack_len=4, pack_sample=1500):
     rng = np.random.default_rng(run.seed)
-    b = B('independent_from exhaustive over all pairs of qubit tuples (N<=5); %d random gate programs (1-3 qubit gates, every third on 4-5 qubits), length <= %d, N <= %d, x {CliffordCircuit, Circuit} x {uncompiled, layer-compiled, circuit-compiled} x {original, copy, composed halves}; inputs: all strings (N<=2)/20 random strings with phases + one random state' % (programs, maxlen, Nmax))
+    b = B('independent_from exhaustive over all pairs of qubit tuples (N<=5); layer packing: ALL support programs of 2..%d gates on N=3 (plus %d sampled on N=4 and N=5, up to %d gates) x {CliffordCircuit, Circuit}; copy-then-extend histories; %d random gate programs (1-3 qubit gates, every third on 4-5 qubits), length <= %d, N <= %d, x {CliffordCircuit, Circuit} x {uncompiled, layer-compiled, circuit-compiled} x {original, copy, composed halves}; inputs: all strings (N<=2)/20 random strings with phases + one random state' % (pack_len, pack_sample, pack_len + 2, programs, maxlen, Nmax))
     c09_independence(b, 5)
+    c09_packing(b, rng, 3, pack_len)                                 # exhaustive over support programs, N = 3
+    c09_packing(b, rng, 4, pack_len + 1, sample=pack_sample)         # sampled, N = 4
+    c09_packing(b, rng, 5, pack_len + 2, sample=pack_sample)
     for pi in range(programs):
         N = int(rng.integers(1, Nmax + 1)) if pi % 3 else int(rng.integers(4, 6))     # every third program on 4-5 qubits
         L = int(rng.integers(1, maxlen + 1))
@@ -867,6 +937,36 @@ def c09_circuits(run, Nmax=3, programs=60, maxlen=6):
                         continue
                     if not same_list(l1, refl):
                         b.fail('circuit_order_%s_%s' % (comp, shape), 'circuit.forward(PauliList) differs from gate-by-gate application', inp)
+                    if shape == 'copy' and comp == 'none':
+                        # history: extend the copy, then the original (which the copy was taken from) -- each circuit must
+                        # still act as the ordered product of the gates added to IT
+                        try:
+                            orig = mk()
+                            for g, _ in gates:
+                                orig.take(g.copy())
+                            cp = orig.copy()
+                            extra, exname = random_gate(rng, N)
+                            cp.take(extra.copy())
+                            extra2, exname2 = random_gate(rng, N)
+                            lo, lc = clone(lst0), clone(lst0)
+                            orig.forward(lo)
+                            cp.forward(lc)
+                            wc = clone(refl)
+                            extra.copy().forward(wc)
+                            orig.take(extra2.copy())
+                            lo2, lc2 = clone(lst0), clone(lst0)
+                            orig.forward(lo2)
+                            cp.forward(lc2)
+                            wo2 = clone(refl)
+                            extra2.copy().forward(wo2)
+                        except Exception as e:
+                            b.fail('circuit_copy_extend.raises', repr(e)[:200], inp)
+                            continue
+                        inp2 = dict(inp, extra_on_copy=exname, extra_on_original=exname2)
+                        if not same_list(lo, refl) or not same_list(lo2, wo2):
+                            b.fail('circuit_copy_extend_original', 'after a gate was added to a COPY, the original circuit no longer acts as the product of its own gates', inp2)
+                        if not same_list(lc, wc) or not same_list(lc2, wc):
+                            b.fail('circuit_copy_extend_copy', 'a copied circuit does not act as (gates of the original at copy time) + (gates added to the copy)', inp2)
                     okT, why = O.tableau_ok(s1.gs, s1.ps, s1.r)
                     if not okT or s1.r != refs.r or not stab_group_eq(s1, refs):
                         b.fail('circuit_state_%s_%s' % (comp, shape), 'circuit.forward(state) differs from gate-by-gate application', inp)
@@ -942,6 +1042,23 @@ def c10_inverse(run, Nmax=3, programs=60, maxlen=6):
                 roundtrip(circ, 'circuit', 'circuit_inverse_%s' % comp, inp)
                 for layer in circ.layers_forward():
                     roundtrip(layer, 'layer', 'layer_inverse_%s' % comp, inp)
+                # history: a circuit that was compiled (or not) and then extended without recompiling -- whatever action the
+                # stale circuit has, its backward must still undo its forward
+                try:
+                    for _ in range(2):
+                        extra, exname = random_gate(rng, N)
+                        circ.take(extra.copy())
+                        roundtrip(circ, 'circuit extended after compile=%s by %s' % (comp, exname), 'circuit_inverse_%s_extended' % comp, dict(inp, extended_by=exname))
+                        for layer in circ.layers_forward():
+                            roundtrip(layer, 'layer (after extension)', 'layer_inverse_%s_extended' % comp, dict(inp, extended_by=exname))
+                    if cls == 'CliffordCircuit':
+                        other = pcirc.CliffordCircuit(N)
+                        for g, _ in gates[:2]:
+                            other.take(g.copy())
+                        circ.compose(other)
+                        roundtrip(circ, 'circuit composed after compile=%s' % comp, 'circuit_inverse_%s_composed' % comp, inp)
+                except Exception as e:
+                    b.fail('circuit_extend.raises', repr(e)[:200], inp)
     return b.result()
 
 
@@ -1017,6 +1134,34 @@ def c11_named(run, Nmax=3):
             cc = mi.compose(mj)
             if (tuple(cc.gs.ravel().tolist()), tuple(int(x) % 4 for x in cc.ps)) not in tabset:
                 b.fail('C_closed_compose', 'C(%d) then C(%d) is not among C(0..23)' % (i, j), {'i': i, 'j': j})
+    # history independence: whatever is done to the map handed out with one gate (here: transformed in place by other gates,
+    # as gate.forward(map) does), a gate constructed LATER is still the table gate
+    ctors = [('%s(0)' % nm, (lambda nm=nm: getattr(pcirc, nm)(0))) for nm in ('H', 'S', 'X', 'Y', 'Z')]
+    ctors += [('CNOT(0,1)', lambda: pcirc.CNOT(0, 1)), ('CNOT(1,0)', lambda: pcirc.CNOT(1, 0))]
+    ctors += [('C(%d,0)' % k, (lambda k=k: pcirc.C(k, 0))) for k in range(24)]
+    first = {}
+    for nm, mk in ctors:
+        m = mk().forward_map
+        first[nm] = (m.gs.copy(), m.ps.copy())
+    for rnd in range(2):
+        for nm, mk in ctors:
+            g = mk()
+            m = g.forward_map
+            try:
+                if m.N == 1:
+                    for k in (1, 7, 16):
+                        pcirc.C(k, 0).forward(m)            # in-place transform of the map object handed out
+                else:
+                    pcirc.CNOT(1, 0).forward(m)
+                    pcirc.H(0).forward(m)
+                m.gs[0, 0] = 1 - m.gs[0, 0]
+            except Exception as e:          # noqa
+                pass
+        for nm, mk in ctors:
+            b.case()
+            m = mk().forward_map
+            if not ((m.gs == first[nm][0]).all() and (m.ps % 4 == first[nm][1] % 4).all()):
+                b.fail('named_history', '%s constructed after the map of an earlier %s was modified in place is a different gate' % (nm, nm), {'gate': nm})
     for bad in (-1, 24, 100):
         b.case()
         try:
@@ -1761,9 +1906,9 @@ REGISTRY['c17_copies'] = c17_copies
 
 
 # ------------------------------------------------------------------------------------------ C18
-def c18_diagonalize(run, Nmax=3, hams=40):
+def c18_diagonalize(run, Nmax=3, hams=40, big=150):
     rng = np.random.default_rng(run.seed)
-    b = B('all non-identity strings x sign x all i0 x causal on/off for N <= %d; 12 random pure states per N; %d commuting-term Hamiltonians and %d arbitrary ones (N <= 3) for SBRG' % (Nmax, hams, hams // 2), exhaustive=False)
+    b = B('all non-identity strings x sign x all i0 x causal on/off for N <= %d; 12 random pure states per N; %d commuting-term Hamiltonians and %d arbitrary ones (N <= 3, dense) and %d commuting-term ones on N = 4..6 (term-wise) for SBRG' % (Nmax, hams, hams // 2, big), exhaustive=False)
     for N in range(1, Nmax + 1):
         for g in O.all_strings(N):
             if not g.any():
@@ -1842,6 +1987,35 @@ def c18_diagonalize(run, Nmax=3, hams=40):
                 b.fail('SBRG_exact', 'commuting Hamiltonian: circuit does not map H onto heff', inp)
             elif not np.allclose(np.sort(np.linalg.eigvalsh(H0)), np.sort(np.linalg.eigvalsh(poly_dense(heff) if len(heff) else 0 * H0)), atol=1e-7):
                 b.fail('SBRG_spectrum', 'spectrum not preserved', inp)
+    # SBRG exactness on larger registers (no dense matrices: the two polynomials are compared term by term)
+    def termdict(poly):
+        d = {}
+        for g, p_, c in zip(poly.gs, poly.ps, poly.cs):
+            k = tuple(int(x) for x in g)
+            d[k] = d.get(k, 0) + complex(c) * 1j ** int(p_)
+        return {k: v for k, v in d.items() if abs(v) > 1e-9}
+    for k in range(big):
+        N = int(rng.integers(4, 7))
+        L = int(rng.integers(2, 8))
+        terms = {tuple(g) for g, _ in commuting_obs(rng, N, L) if g.any()}
+        terms = [np.array(t) for t in terms]
+        if not terms:
+            continue
+        cs = np.round(rng.normal(size=len(terms)), 3) + 0.1 * np.sign(rng.normal(size=len(terms)))
+        H = pa.PauliPolynomial(np.array(terms), np.zeros(len(terms), dtype=np.int64)).set_cs(cs.astype(complex))
+        inp = {'H': poly_json(H), 'commuting': True, 'N': N}
+        b.case(sample=inp)
+        ok, res = guard(b, 'SBRG', lambda: pcirc.SBRG(H), inp)
+        if not ok:
+            continue
+        heff, circ = res
+        if len(heff) and not (heff.gs[:, 0::2] == 0).all():
+            b.fail('SBRG_diagonal', 'effective Hamiltonian contains a non I/Z string', inp)
+        Hc = H.copy()
+        circ.forward(Hc)
+        d1, d2 = termdict(Hc), (termdict(heff) if len(heff) else {})
+        if set(d1) != set(d2) or any(abs(d1[k_] - d2[k_]) > 1e-7 for k_ in d1):
+            b.fail('SBRG_exact', 'commuting Hamiltonian (N=%d): circuit does not map H onto heff' % N, inp)
     return b.result()
 
 
@@ -1877,7 +2051,7 @@ def c19_sampling(run, Nmax=3, count=25):
                     if len(keys) != 2 ** (N - r) or len(set(keys)) != len(keys) or not np.allclose(np.abs(wts), 2.0 ** -N) or not O.eq(poly_dense(dm), R):
                         b.fail('density_matrix', 'density_matrix does not list every group element once with weight 2^-N', inp)
         # classical shadows
-        for kind in ('onsite', 'global', 'fixed'):
+        for kind in ('onsite', 'global', 'fixed', 'fixed', 'fixed_compiled'):
             gs, ps = gens.rand_tableau(rng, N)
             base = mk_state(gs, ps, int(rng.integers(0, N + 1)))
             snap0 = state_json(base)
@@ -1890,10 +2064,12 @@ def c19_sampling(run, Nmax=3, count=25):
                 circ = pcirc.CliffordCircuit(N)
                 for _ in range(3):
                     circ.take(random_gate(rng, N)[0])
+                if kind == 'fixed_compiled':
+                    circ.compile()
             ok, shots = guard(b, 'snapshots', lambda: list(pdev.ClassicalShadow(base, circ).snapshots(6)), {'kind': kind, 'state': snap0})
             if not ok:
                 continue
-            for s in shots:
+            for si, s in enumerate(shots):
                 b.case(sample={'kind': kind, 'N': N})
                 okT, why = O.tableau_ok(s.gs, s.ps, s.r)
                 if not okT:
@@ -1901,6 +2077,21 @@ def c19_sampling(run, Nmax=3, count=25):
                     continue
                 if np.trace(O.rho(s) @ R).real < 1e-12:
                     b.fail('snapshot_overlap', 'snapshot has zero overlap with the measured state', {'kind': kind, 'state': snap0, 'snapshot': state_json(s)})
+                if kind.startswith('fixed'):
+                    # stabilized up to sign by the back-evolved measurement basis U^-1 Z_i U of the (deterministic) circuit
+                    for i in range(N):
+                        zi = P(zstring(N, i), 0)
+                        circ.backward(zi)
+                        x = np.asarray(s.expect(PL(np.array([zi.g]), np.array([zi.p])))).ravel()[0]
+                        if abs(abs(x) - 1) > 1e-9:
+                            b.fail('snapshot_basis', 'snapshot #%d is not stabilized (up to sign) by the back-evolved Z_%d of the measurement circuit' % (si, i),
+                                   {'kind': kind, 'state': snap0, 'snapshot': state_json(s), 'index': si})
+                            break
+                if kind == 'onsite':
+                    for i in range(N):
+                        if int(s.entropy([i])) != 0:
+                            b.fail('snapshot_onsite_product', 'snapshot of an on-site random circuit is entangled across qubit %d' % i, {'kind': kind, 'snapshot': state_json(s)})
+                            break
             if state_json(base) != snap0:
                 b.fail('snapshot_base_changed', 'taking snapshots changed the base state', {'kind': kind})
     return b.result()
